@@ -417,6 +417,9 @@ def e8(ctx: Ctx):
                     variants = [x + re.escape(str(v.value)) for x in variants]
                 elif isinstance(v, ast.FormattedValue) and isinstance(v.value, ast.Name) and const_alts(v.value.id) is not None:
                     variants = [x + re.escape(c_) for x in variants for c_ in const_alts(v.value.id)]
+                elif isinstance(v, ast.FormattedValue) and isinstance(v.value, ast.IfExp) and all(isinstance(b_, ast.Constant) and isinstance(b_.value, str) for b_ in (v.value.body, v.value.orelse)):
+                    # f"tmp_{n}{'$' if is_str else ''}": one pattern per arm
+                    variants = [x + re.escape(b_.value) for x in variants for b_ in (v.value.body, v.value.orelse)]
                 else:
                     variants = [x + r"\d+" for x in variants]
             for pat in variants:
